@@ -100,8 +100,9 @@ def make_fixtures(origin):
     return {"DModel": DModel, "DSystem": DSystem, "DAgent": DAgent, "hook": hook, "swap_env_hook": swap_env_hook, "nested_hook": nested_hook}
 
 
-globals().update(make_fixtures("mod"))
-MAIN_FIXTURES = make_fixtures("main")
+FIX = {o: make_fixtures(o) for o in ("mod", "mod2", "main", "main2")}
+globals().update(FIX["mod"])
+MAIN_FIXTURES = FIX["main"]
 
 
 class DictDecoder(Decoder):
@@ -181,9 +182,11 @@ def build_description(spec, di):
     return desc
 
 
-def expected_events(desc, di):
+def expected_events(desc, di, gen=0):
     ev = []
-    org = lambda entry: "mod" if "module" in entry else "main"      # an entry without a 'module' key is resolved through __main__
+    # an entry without a 'module' key is resolved through __main__; the names are re-bound to another set of classes /
+    # functions between decodes (a notebook cell that is run again): what counts is what a name denotes WHEN the decode runs
+    org = lambda entry: ("mod", "mod2")[gen % 2] if "module" in entry else ("main", "main2")[gen % 2]
     if "pre_model_decode" in desc:
         ev.append(("hook", f"d{di}:pre_model", None, org(desc["pre_model_decode"])))
     ev.append(("model", f"d{di}", org(desc["model"])))
@@ -215,6 +218,7 @@ def run_case(case):
         setattr(main, n, MAIN_FIXTURES[n])
     labels = set()
     nontrivial = False
+    rebind = bool(case.get("rebind"))
     try:
         with tempfile.TemporaryDirectory(prefix="vf_c18_") as tmp:
             pristine = [build_description(s, di) for di, s in enumerate(specs)]
@@ -233,6 +237,11 @@ def run_case(case):
                 del SEEN[:]
                 CURRENT.clear()
                 where = f"decode #{n} of description {di} via {'JsonDecoder' if via_json else 'dict Decoder'}"
+                if rebind:
+                    for nm in NAMES:
+                        setattr(sys.modules[ME], nm, FIX[("mod", "mod2")[n % 2]][nm])
+                        setattr(main, nm, FIX[("main", "main2")[n % 2]][nm])
+                    labels.add("names-re-bound-between-decodes")
                 decoder = JsonDecoder() if via_json else DictDecoder(table)
                 NESTED.clear()
                 NESTED.update({"decoder": decoder, "name": os.path.join(tmp, "inner.json") if via_json else "inner", "results": []})
@@ -252,7 +261,7 @@ def run_case(case):
                     if inner is model or got_inner != ("inner", ["isys"], ["in_0", "in_1"]):
                         raise Violation("nested-decode-mixed-up", f"{where}: the description decoded from inside a hook yielded (tag, systems, agents) = "
                                                                   f"{got_inner}{' - the very model of the outer decode' if inner is model else ''}; description {_brief(desc)}")
-                exp = expected_events(desc, di)
+                exp = expected_events(desc, di, n if rebind else 0)
                 got = list(EVENTS)
                 if got != exp:
                     i = next((j for j, (a, b) in enumerate(zip(got, exp)) if a != b), min(len(got), len(exp)))
@@ -340,6 +349,7 @@ def run_case(case):
                 labels.add("repeated-decode")
     finally:
         for n in NAMES:
+            setattr(sys.modules[ME], n, FIX["mod"][n])
             if saved[n] is None:
                 if hasattr(main, n):
                     delattr(main, n)
@@ -377,4 +387,5 @@ def strategy(tier):
                                      "hooks": st.fixed_dictionaries({"pre_model": st.booleans(), "post_model": st.booleans()}),
                                      "module": st.just(True)})
     return st.fixed_dictionaries({"descriptions": st.lists(wone_of(*([desc, rich] * 7 + [big, crowded])), min_size=1, max_size=3),
-                                  "order": st.lists(st.integers(0, 2), min_size=1, max_size=5), "json_mask": st.integers(0, 31)})
+                                  "order": st.lists(st.integers(0, 2), min_size=1, max_size=5), "json_mask": st.integers(0, 31),
+                                  "rebind": st.sampled_from([False, False, True])})
